@@ -280,7 +280,7 @@ func (w *world) exitEverybody(st simcore.Step, stepIdx int) bool {
 	}
 	run.Probe("exit-everybody-probe")
 	for _, p := range w.pools {
-		bound := osmomath.NewInt(2*p.ops + p.crossed + 2)
+		bound := osmomath.NewInt(2*p.ops + p.crossed + 2).Add(osmomath.NewIntFromBigInt(ceilRat(p.dustPrec)))
 		for _, d := range []string{p.d0, p.d1} {
 			left := n.Balance(bctx, p.addr, d)
 			if left.GT(bound) {
